@@ -60,6 +60,9 @@ def offset_gate(chk, F):
     uses_east = "chrono::offset::fixed::FixedOffset::east_opt" in s
     bad = [c for c in calls if c.endswith(("::unwrap", "::expect", "::unwrap_unchecked", "::unwrap_or_default"))]
     tried = any(c.endswith("Try>::branch") for c in calls) and "as Continue" in s
+    # ... or an explicit match on it: the call lies behind the Some edge of a test of east_opt's answer
+    gds = [fn.guard_desc(g) for g in fn.guards_of(bb)]
+    tried = tried or ("as Some" in s and any(d[0] == "variant" and d[3] in ("Some", "Ok", "Continue") and "FixedOffset::east_opt" in ap_str(d[1]) for d in gds))
     chk.decide(uses_east and not bad and tried, "offset-gate", fk, "offset-from-east_opt-some", fn.where(bb),
                "the target offset is east_opt's Some value, its None turned into an error by `?` (offsets outside +-24 h are refused)",
                "the Offset conversion does not refuse out-of-range offsets: the FixedOffset comes from %s" % s[:200])
